@@ -182,20 +182,8 @@ func (n *Number) AsNode() (num Node) {
 		}
 		num = Int(i)
 	default:
-		f := float64(n.I)
-		if 0 < n.Frac {
-			f += float64(n.Frac) / float64(n.Div)
-		}
-		if n.Neg {
-			f = -f
-		}
-		if 0 < n.Exp {
-			x := int(n.Exp)
-			if n.NegExp {
-				x = -x
-			}
-			f *= math.Pow10(x)
-		}
+		n.FillBig()
+		f, _ := strconv.ParseFloat(string(n.BigBuf), 64)
 		num = Float(f)
 	}
 	return
